@@ -113,6 +113,10 @@ def run(repo: Repo, L: Ledger, tier: str):
         calls = [n for n in walk_shallow(helper.node) if isinstance(n, ast.Call) and dotted(n.func) == rc.name]
         ok = len(calls) == 1 and len(calls[0].args) == 1 and isinstance(calls[0].args[0], ast.Call) and isinstance(calls[0].args[0].func, ast.Attribute) and calls[0].args[0].func.attr in ("getvalue", "getbuffer") and is_name(calls[0].args[0].func.value, hp)
         L.check(ok, "R2", helper.short, "whole buffer value reverse-complemented", "helper does not reverse-complement the complete buffer value (position-dependent read or partial slice)", helper.loc())
+        rets = [n for n in walk_shallow(helper.node) if isinstance(n, ast.Return)]
+        fresh = len(rets) == 1 and isinstance(rets[0].value, ast.Call) and (dotted(rets[0].value.func) or "").endswith("BytesIO")
+        mutates = [norm(c)[:40] for c in walk_shallow(helper.node) if isinstance(c, ast.Call) and isinstance(c.func, ast.Attribute) and is_name(c.func.value, hp) and c.func.attr in ("write", "seek", "truncate")]
+        L.check(fresh and not mutates, "R2", helper.short + ":fresh", "returns a new buffer, leaves its argument untouched", f"helper overwrites the buffer it is given ({mutates[:2]}): a caller that still holds (or re-uses) that chunk sees reverse-complemented bytes — complementing is then applied an odd number of times to re-used chunks", helper.loc())
 
     # ---- R3 Fragment.reverse
     frag = repo.cls("Fragment")
